@@ -58,6 +58,40 @@ theorem commit_success_means_applied (s s' : Store) (keys : List Bytes) (T C : N
     (hl : (getEntry s.kv k).lock = some l) (hT : l.startTS = T) (hop : l.op ≠ .pessimisticLock) :
     HasData (getEntry s'.kv k) T C := commit_success_applied s s' keys T C hs hn hC h k hk l hl hT hop
 
+/-- "an error other than undetermined implies that it is not committed and never becomes visible", at the store, for
+    every run: if every commit request the owner got through to the store for the primary was answered with an error
+    (`OwnerFails`: that is what a definite error rests on) and everybody obeys the owner/resolver discipline (`Disc`),
+    then after ANY command sequence no key carries a data record of the transaction and no read at any timestamp on
+    any key returns a version it wrote -/
+theorem definite_error_never_visible (T : Nat) (p : Bytes) (s : Store) (cs : List Cmd) (hs : SInv s) (hok : OkAll s cs)
+    (hf : FailAll T p s cs) (hn : NeverCommitted T s) :
+    NeverCommitted T (runAll s cs) ∧
+      ∀ k ts w, firstVisible (getEntry (runAll s cs).kv k).writes ts = some w → w.startTS ≠ T :=
+  have h := runAll_never_committed T p s cs hs hok hf hn
+  ⟨h, fun k ts w hw => h.invisible k ts w hw⟩
+
+/-- non-vacuity: prewrite, a resolver's TTL-expiry rollback of the primary, then the owner's commit (refused), then its rollback -/
+example : FailAll 10 [0x61] {}
+    [Cmd.prewrite { mutations := [⟨.put, [0x61], [1], .none⟩], primary := [0x61], startTS := 10, ttl := 0 },
+     Cmd.status [0x61] 10 0 (2 ^ 40) true false,
+     Cmd.commit [[0x61]] 10 20] := by
+  refine ⟨trivial, trivial, ?_, trivial, ?_, ?_, trivial⟩
+  · intro _; right; rfl
+  · intro _; right
+    refine ⟨by simp, ?_, ?_⟩
+    · intro l hl _
+      have h0 : (getEntry (Cmd.run (Cmd.run {} (Cmd.prewrite { mutations := [⟨.put, [0x61], [1], .none⟩], primary := [0x61], startTS := 10, ttl := 0 }))
+          (Cmd.status [0x61] 10 0 (2 ^ 40) true false)).kv [0x61]).lock = none := by decide
+      rw [h0] at hl; cases hl
+    · rintro C' ⟨w, hw, hT, hv, _⟩
+      have h0 : (getEntry (Cmd.run (Cmd.run {} (Cmd.prewrite { mutations := [⟨.put, [0x61], [1], .none⟩], primary := [0x61], startTS := 10, ttl := 0 }))
+          (Cmd.status [0x61] 10 0 (2 ^ 40) true false)).kv [0x61]).writes = [⟨.rollback, 10, 10, []⟩] := by decide
+      rw [h0] at hw
+      simp only [List.mem_singleton] at hw
+      subst hw
+      exact absurd rfl hv
+  · intro _ _; decide
+
 theorem owner_rollback_only_before_commit_point (m m' : MState) (client : String) (fate : Fate) (S : Nat) (keys : List Bytes)
     (h : Monitor.step m (.rollback client fate S keys) = .ok m') :
     (m.get S client).client = client → (m.get S client).commitPointMaybe = false :=
